@@ -25,6 +25,10 @@ def doubles(rng, n_random):
             out.append(-x)
     for k in range(-30, 31):
         out.append(10.0 ** k); out.append(2.0 ** k); out.append(5 * 10.0 ** k)
+    for k in range(-1074, 1024, 3):      # powers of two over the whole exponent range (decimal exponent estimates on either side)
+        out.append(2.0 ** k if k > -1023 else 5e-324 * 2.0 ** (k + 1074))
+    for k in range(-320, 309, 7):
+        out.append(float("1e%d" % k)); out.append(float("9.95e%d" % k))
     for _ in range(n_random):
         r = rng.random()
         if r < 0.5:
